@@ -299,6 +299,8 @@ def c17(res: CheckResult) -> None:
              list(DF.fam_hier(res.tier, rng)), ic, rng=rng)
     def_unit(res, "post-hoc decoration of a member of an already created class (K.f = require(..)(K.f))",
              list(DF.fam_posthoc(res.tier, rng)), ic, verdicts=True, rng=rng)
+    def_unit(res, "classes re-created from their dictionary through the metaclass (dataclass(slots=True), attrs), then decorated",
+             list(DF.fam_recreated(res.tier, rng)), ic, verdicts=True, rng=rng)
     def_unit(res, "every placement of {absent, bare, pre, post} on every class of every shape (exhaustive)",
              list(DF.fam_hier_small(res.tier, rng)), ic, rng=rng)
 
@@ -321,6 +323,8 @@ def c18(res: CheckResult) -> None:
     def_unit(res, "special methods (__call__) in hierarchies", list(DF.fam_dunder(res.tier, rng)), ic, verdicts=True, rng=rng)
     def_unit(res, "functions called once before a class statement adopts them as methods",
              list(DF.fam_precalled(res.tier, rng)), ic, verdicts=True, rng=rng)
+    def_unit(res, "classes re-created from their dictionary through the metaclass (dataclass(slots=True), attrs), then decorated",
+             list(DF.fam_recreated(res.tier, rng)), ic, verdicts=True, rng=rng)
     def_unit(res, "registration hook: classes in modules with assorted names, with and without the metaclass",
              list(DF.fam_modules(res.tier, rng)), ic, rng=rng)
 
